@@ -22,23 +22,28 @@ os.makedirs(out, exist_ok=True)
 
 EXERCISED = (
     "second calls on the same object, stale cached attributes, mutated arguments, returned objects aliasing internal state, class-level / "
-    "module-level shared state and mutable defaults, uniform scales from 1e-12 to 1e6 and data far from the origin, integer-typed inputs, "
-    "narrow numpy dtypes (uint8/int16/float32) for index rows, ids, weights and coordinates, numpy scalars as arguments, large inputs (a few "
-    "thousand elements), documented options incl. verbose switches and capitalised option strings, the library-wide switches in "
-    "mouette/config.py, the state left behind by a call that raised, resolutions at which floating-point division rounds badly, "
-    "container forms (lists / tuples / numpy rows)")
+    "module-level shared state and mutable defaults, caches keyed by id() of freed objects or of buffers overwritten in place, uniform "
+    "scales from 1e-12 to 1e6 and data far from the origin, integer-typed inputs, narrow numpy dtypes (uint8/int16/float32) for index "
+    "rows, ids, weights and coordinates, numpy scalars as arguments, Python ints beyond 2**53, large inputs (element counts, id products "
+    "and depths around 2**8, 2**15, 2**16, 2**31), documented options incl. verbose switches and capitalised option strings, the "
+    "library-wide switches in mouette/config.py, the state left behind by a call that raised, resolutions at which floating-point "
+    "division rounds badly, values within 1e-5 of special ones, container forms (lists / tuples / numpy rows), unused vertices at id 0 / "
+    "middle / last, element lists in unusual order, faces sharing two edges or the same vertex set, degenerate faces with a repeated "
+    "vertex, chords, disks without interior vertex, pre-existing attributes named like the library's own, copy / deepcopy / pickle of "
+    "the objects, two objects of one class used interleaved on one mesh, augmented assignment operators")
 
 DIRECTIONS = (
-    "an interaction of TWO features of the statement that no earlier change combined; a function, option or branch of the statement that no "
-    "earlier change touched (read the list and look for the gaps); elements in an unusual but legitimate order (faces/cells reversed or "
-    "interleaved by component, isolated vertices, the highest id first, ids 0 and N-1 in special roles); rare combinatorial configurations "
-    "(valence-2 or very high valence vertices, several border loops touching one face, components of different kinds in one mesh); exact "
-    "ties, exactly collinear / cocircular / axis-aligned data, values exactly at a threshold, -0.0; ids or counts at powers of two and "
-    "around 2**16 / 2**31 where a narrow intermediate type could wrap; caches keyed by id() of objects that can be garbage collected and "
-    "whose id is reused; behaviour that differs between the FIRST element/iteration and the rest, or for the LAST one; behaviour depending "
-    "on dict / set iteration order or on hash values; copy.copy / copy.deepcopy / pickle of the objects involved; dunder methods of the "
-    "containers (__len__, __iter__, __contains__, __eq__) and properties read in an unusual order; two changes at different sites that are "
-    "each harmless alone")
+    "a function, option, branch or return path of the statement that NO earlier change touched (read the list and the code and look for "
+    "the gaps - rarely used keyword arguments, the `else` of an `if` that is almost always true, code after an early `return`); empty "
+    "and minimal inputs (no element, one element, exactly two) and the LAST element / last iteration of a loop; comparisons at exactly a "
+    "threshold (`<` against `<=`, a constant changed in its 7th digit); negative indices that Python wraps silently, booleans or "
+    "numpy.bool_ used as indices / counts, None passed for an optional argument, arguments given by keyword instead of position, "
+    "generators / iterators / dict views / ranges handed over where a list is usual (they can be consumed only once); an operation "
+    "that iterates over a container while another part of the same call grows it; results that depend on recursion depth; for file "
+    "formats: CRLF line ends, tabs, comment and blank lines, exponent spellings (1E+05, 1.e5, .5), trailing spaces, a missing final "
+    "newline, upper / lower case keywords, very long or non-ASCII strings; accumulations whose error grows with the NUMBER of elements "
+    "(single-precision or naive sums, > 1e5 terms); a correct value computed and then stored in / returned from the wrong variable only "
+    "on one branch; two changes at different sites that are each harmless alone")
 
 
 def earlier(pid):
